@@ -186,7 +186,7 @@ class Machine:
                 continue
             if what == 'start':
                 self.orders[did] = {'t': now, 'tag': tag, 'disturbed': False,
-                                    'dur': m.items[did]['wo'][tag][0]}
+                                    'dur': (m.items[did].get('wo') or {}).get(tag, [0, 0, 0])[0]}
                 if cen.oper[did]:
                     ctx.report('work_order_down', f'{did} is operational right after start_work({tag}) at {now!r}')
                     return
